@@ -144,9 +144,16 @@ func (r *Run) Prepare() {
 }
 
 func (r *Run) Cleanup() {
-	if r.WorkDir != "" && os.Getenv("VERIF_KEEP") == "" {
+	if os.Getenv("VERIF_KEEP") != "" {
+		return
+	}
+	if r.WorkDir != "" {
 		os.RemoveAll(r.WorkDir)
 	}
+	for _, d := range goWorkDirs {
+		os.RemoveAll(d)
+	}
+	goWorkDirs = nil
 }
 
 func (r *Run) BuildFailure(err error) {
